@@ -6,18 +6,19 @@ use vcoll::{Havoc, VKey};
 type Group = KeyspaceGroup<GhostStore>;
 
 // ------------------------------------------------------------------ C07 (class B: 2 keyspaces x 3 rows)
-fn any_store(max_ks: usize, max_rows: usize) -> GhostStore {
+fn any_store(n_ks: usize, n_rows: usize, fail_list: bool, fail_last: bool) -> GhostStore {
     let mut st = GhostStore {
-        n_ks: kani::any(),
-        n_rows: kani::any(),
+        n_ks,
+        n_rows: [n_rows; MAX_KS],
         rows: [[(0, HLCTimestamp::from_u64(0), false); MAX_ROWS]; MAX_KS],
-        fail_list: kani::any(),
-        fail_rows: kani::any(),
+        fail_list,
+        fail_rows: [false; MAX_KS],
     };
-    kani::assume(st.n_ks <= max_ks);
+    if fail_last && n_ks > 0 {
+        st.fail_rows[n_ks - 1] = true;
+    }
     let mut i = 0;
     while i < MAX_KS {
-        kani::assume(st.n_rows[i] <= max_rows);
         let mut j = 0;
         while j < MAX_ROWS {
             st.rows[i][j] = (kani::any(), HLCTimestamp::havoc(), kani::any());
@@ -31,23 +32,28 @@ fn any_store(max_ks: usize, max_rows: usize) -> GhostStore {
     st
 }
 
-/// one keyspace, up to two rows (ordering, coinciding stamps, tombstones)
-#[kani::proof]
-#[kani::unwind(4)]
-fn gr_load_rows() {
-    load_contract(1, 2);
+/// counts and failure points are CONCRETE per harness (row contents -- ids, stamps, tombstone flags -- symbolic)
+macro_rules! load_harness {
+    ($name:ident, $ks:expr, $rows:expr, $fl:expr, $flast:expr) => {
+        #[kani::proof]
+        #[kani::unwind(12)]
+        fn $name() {
+            load_contract($ks, $rows, $fl, $flast);
+        }
+    };
 }
-/// two keyspaces, up to one row each (rows never leak into another keyspace; failure while reading the second)
-#[kani::proof]
-#[kani::unwind(4)]
-fn gr_load_keyspaces() {
-    load_contract(2, 1);
-}
-fn load_contract(max_ks: usize, max_rows: usize) {
-    unsafe { LOADED = Some(Vec::new()) };
+load_harness!(gr_load_1x2, 1, 2, false, false);
+load_harness!(gr_load_2x1, 2, 1, false, false);
+load_harness!(gr_load_2x2, 2, 2, false, false);
+load_harness!(gr_load_1x1, 1, 1, false, false);
+load_harness!(gr_load_0, 0, 0, false, false);
+load_harness!(gr_load_fail_list, 2, 1, true, false);
+load_harness!(gr_load_fail_rows, 2, 1, false, true);
+fn load_contract(max_ks: usize, max_rows: usize, fail_list: bool, fail_last: bool) {
+    unsafe { LOADED = Some(vcoll::vvec::VVec::new()) };
     let g: Group = KeyspaceGroup {
         clock: Clock,
-        storage: Arc::new(any_store(max_ks, max_rows)),
+        storage: Arc::new(any_store(max_ks, max_rows, fail_list, fail_last)),
         keyspace_timestamps: Default::default(),
         group: Default::default(),
     };
@@ -56,7 +62,8 @@ fn load_contract(max_ks: usize, max_rows: usize) {
     let spawned = unsafe { LOADED.as_ref().unwrap() };
     if r.is_err() {
         assert!(spawned.len() == 0, "a failed load hands no partial data to load_states");
-        kani::cover!(st.n_ks == max_ks && !st.fail_list && st.fail_rows[max_ks - 1], "failure while reading the last keyspace");
+        assert!(fail_list || fail_last, "a load only fails when storage fails");
+        kani::cover!(true, "failed load");
         return;
     }
     assert!(spawned.len() == st.n_ks, "one state per keyspace storage lists is handed to load_states");
@@ -96,7 +103,8 @@ fn load_contract(max_ks: usize, max_rows: usize) {
         }
         i += 1;
     }
-    kani::cover!(st.n_ks == max_ks && st.n_rows[0] == max_rows && st.n_rows[max_ks - 1] == max_rows, "largest storage content inside the bound");
+    assert!(!fail_list && !fail_last, "storage failures are reported");
+    kani::cover!(true, "successful load");
     if max_rows == 2 {
         kani::cover!(st.n_ks == 1 && st.n_rows[0] == 2 && st.rows[0][0].2 && !st.rows[0][1].2 && st.rows[0][0].1 > st.rows[0][1].1, "tombstone newer than a live row, listed first");
         kani::cover!(st.n_ks == 1 && st.n_rows[0] == 2 && st.rows[0][0].1 == st.rows[0][1].1, "two rows sharing one timestamp (bulk write)");
